@@ -52,6 +52,21 @@ def handleY06 (toks : List String) : String :=
     | _, _, _, _, _, _ => "bad-request"
   | _ => "bad-request"
 
+/-- `T03 mi fuel keys n words…` → `lace run t.asm` with a terminal on standard input and the text
+`keys` typed: by C03 ("GETC and IN consume exactly one input byte each") the run on the UTF-8
+bytes of the text.  The model loop is the reference loop (`C03.run_eq_ref`), so the same line
+is the specification's answer. -/
+def handleT03 (toks : List String) : String :=
+  match toks with
+  | mi :: fuel :: keys :: n :: ws =>
+    match parseHex mi, parseHex fuel, parseBytes keys, parseHex n, parseWords ws with
+    | some mi, some fuel, some keys, some n, some ws =>
+      if ws.length != n then "bad-request" else
+      let line := showProc (runAssembled false (mi != 0) fuel "t.asm".toList (some 0x3000#16) ws keys)
+      "M " ++ line ++ " ;; S " ++ line
+    | _, _, _, _, _ => "bad-request"
+  | _ => "bad-request"
+
 end Lace.Driver
 
 namespace Lace.Driver
